@@ -22,7 +22,7 @@ OUTSIDE = 'longer signals, more than 3 sifting iterations per IMF, float roundin
 ASSUMPTIONS = ['rilling_stop replaced by its documented formula in the rilling configurations (compositional cut; the real '
                'function is proved equivalent to the formula in the C04 unit clause); replays use the real function',
                'sd stop: the threshold is a symbolic real in (0,1); nonlinear queries may end unknown (counted inconclusive)']
-REQUIRED_CLASSES = ['two-or-more-imfs', 'extrema-vanish-after-iteration', 'residual-only', 'ended-of-own-accord']
+REQUIRED_CLASSES = ['two-or-more-imfs', 'extrema-vanish-after-iteration', 'residual-only', 'ended-of-own-accord', 'integer-input']
 EXPECTED_LABELS = ['never-raises', 'additive', 'residual-non-oscillatory', 'shape']
 BUDGET_S = {'quick': 170, 'thorough': 900}
 OPTS = {'quick': {'sample_every': 9}, 'thorough': {'sample_every': 9, 'timeout_ms': 20000}}
@@ -44,6 +44,9 @@ def configs(tier):
         sd = cfg(6, 'sd', '1', 'splrep', 2)
         sd[1]['_budget_s'] = 45
         out.append(sd)
+        # integer-dtype recording (raw counts): residuals and components are real valued whatever the input dtype
+        ii = cfg(6, 'fixed1', '1', 'splrep', 2)
+        out.append((ii[0] + '-int-input', dict(ii[1], int_input=True)))
     else:
         out.append(cfg(7, 'fixed1', '1', 'splrep', 2))
         out.append(cfg(7, 'fixed2', '1/2', 'splrep', 2))
@@ -55,12 +58,19 @@ def configs(tier):
             c = cfg(6, 'sd', step, 'splrep', w)
             c[1]['_budget_s'] = 150
             out.append(c)
+        for n, stop in ((6, 'fixed1'), (6, 'fixed2'), (7, 'fixed1')):
+            ii = cfg(n, stop, '1', 'splrep', 2)
+            out.append((ii[0] + '-int-input', dict(ii[1], int_input=True)))
     return out
 
 
 def harness(h):
     N = h.params['N']
-    X = h.reals('x', N)
+    if h.params.get('int_input'):
+        X = h.int_array('x', N, -8, 8)
+        h.note('integer-input')
+    else:
+        X = h.reals('x', N)
     imf_opts, env_opts, ext_opts = common.sift_options(h, h.params)
     with common.rilling_model(h, enabled=h.params['stop'] == 'rilling'), common.trace_sift(max_gni=8) as tr:
         try:
